@@ -35,7 +35,7 @@ lines = ['# Calibration results: seeded changes vs checks', '',
          'Each row is a change to fastscape-lem/fastscapelib that compiles and passes the repository test-suite (confirmed in a scratch',
          'worktree: `seeded/<id>/meta.json`). It is applied to a scratch copy of `/repo/include` and the quick check of the property it',
          'breaks is run against it (`selftest/run_seeded.py`). `FIX-<D>`: revert of a `fix:` commit (a defect of the original tree).',
-         '`Cxx-k`: round 1, `R2-Cxx-k` ... `R5-Cxx-k`: rounds 2-5 (independent sub-agents, see DESIGN.md section 11).',
+         '`Cxx-k`: round 1, `R2-Cxx-k` ... `R6-Cxx-k`: rounds 2-6 (independent sub-agents, see DESIGN.md section 11).',
          '"first run" is the verdict of the machinery as it was when the change arrived; "latest" after any strengthening.', '',
          '| id | property | what it needs to manifest | first run | latest | keys reported (latest) | s |', '|---|---|---|---|---|---|---|']
 nf = nl = tot = 0
